@@ -749,11 +749,15 @@ impl<'a> GeneratorState<'a> {
                     .compiler_state
                     .syntax_error("Unexpected ':'. Probably a ';' typo", pos)),
                 Operation::Comma => {
-                    self.generate_expr(lhs, pos, false, false)?;
-                    self.purge_deferred_plusplus_and_savey()?;
-                    self.acc_in_use = false;
-                    self.tmp_in_use = false;
-                    self.generate_expr(rhs, pos, false, false)
+                    // The left operand is evaluated once: not again when the right one is
+                    // revisited for its high byte
+                    if !high_byte {
+                        self.generate_expr(lhs, pos, false, false)?;
+                        self.purge_deferred_plusplus_and_savey()?;
+                        self.acc_in_use = false;
+                        self.tmp_in_use = false;
+                    }
+                    self.generate_expr(rhs, pos, high_byte, second_time)
                 }
             },
             Expr::Identifier(var, sub) => match var.as_str() {
